@@ -54,6 +54,9 @@ CLIENT_ID_KEY = 'com.twitter.finagle.thrift.ClientIdContext'
 DEADLINE_KEY = 'com.twitter.finagle.Deadline'
 
 
+_EXTRA = []      # public properties of the call being issued right now (on top of the plan's)
+
+
 class _PropsSink(ClientMessageSink):
   """Harness interceptor: adds the plan's public properties to the message
   (the same way ClientIdInterceptorSink adds the client id)."""
@@ -64,7 +67,7 @@ class _PropsSink(ClientMessageSink):
     self.next_sink = next_provider.CreateSink(global_properties)
 
   def AsyncProcessRequest(self, sink_stack, msg, stream, headers):
-    for k, v in self.props:
+    for k, v in list(self.props) + list(_EXTRA):
       msg.properties[k] = v
     self.next_sink.AsyncProcessRequest(sink_stack, msg, stream, headers)
 
@@ -102,6 +105,8 @@ def _frames_or_early(key, call, hello):
       'timeout_ms': st.sampled_from([None, 50, 80, 1000, 10000]),
       # while a call that the peer never answers is pending, another (answered) call goes out on the connection
       'bystander': st.booleans(),
+      # calls (by index) preceded by a call that fails in the serializer
+      'after_bad': st.one_of(st.just([]), st.just([]), st.lists(st.integers(0, 3), min_size=1, max_size=2, unique=True)),
       # most bytes a single send() accepts
       'send_max': st.sampled_from([None, None, 1, 7, 64, 4096]),
       'calls': st.lists(weighted((2, call), (1, hello)), min_size=1, max_size=4),
@@ -166,6 +171,7 @@ def _exec_headers(plan):
 
 
 def _exec_frames(plan):
+  _EXTRA[:] = []
   net = SimNet()
   net.install()
   net.send_max = plan.get('send_max')
@@ -220,6 +226,17 @@ def _exec_frames(plan):
     peer.reply_contexts = ((b'k', b'v'), (b'', b'\xe2\x82\xac')) if c['behave'] == 'reply_ctx' else ()
     m = c['m']
     args = [c14._real(m, a) for a in c['args']]
+    if plan.get('after_bad') and i in plan['after_bad']:
+      # first a call that cannot be serialized (too many arguments), with a property and a deadline of its own:
+      # it fails for its caller, and nothing of it may show up in the frame of the call that follows
+      _EXTRA[:] = [('x.failed-call', 'b%d' % i)]
+      try:
+        disp.DispatchMethodCall(m, tuple(args) + (1, 2, 3), {}, timeout=7.0)
+      except Exception:
+        pass
+      _EXTRA[:] = []
+      advance(0.002)
+      nt.add('after a call that failed to serialize')
     n_before = len(peer.frames)
     t_issue = loop.now()
     if c['kw']:
